@@ -22,12 +22,12 @@ def base_stream(ts):
         [E(kind="PayAddr", creator="a07", acc="a07", did="d1")] + [E(kind="Create", creator=a) for a in ("a01", "a02", "a03")],
         [E(kind="Reset", creator="a01", status=15), E(kind="Reset", creator="a02", status=15), E(kind="Reset", creator="a03", status=13)]
         + [E(kind="AddVstorage", creator=a, size=3000000) for a in ("a01", "a02", "a03")],
-        [E(kind="Delegate", creator="a02", val="v1", amount=250000), E(kind="Delegate", creator="a09", val="v1", amount=100000),
+        [E(kind="Delegate", creator="a02", val="v1", amount=250000), E(kind="Delegate", creator="a09", val="v1", amount=500000),
          E(kind="Delegate", creator="a01", val="v2", amount=250000)],   # two super nodes: the round-robin cursor moves
         [store],
         [E(kind="Complete", creator=a, provider=a, order=1, size=1000) for a in ("a01", "a02", "a03")],
         [dict(FAIL_DELEGATE)],                                                    # setfail
-        [E(kind="Delegate", creator="a10", val="v1", amount=300000)],             # use
+        [E(kind="Delegate", creator="a10", val="v1", amount=10)],                 # use: a small first-time delegation
         [E(kind="Binding", creator="a05", acc="a05", did="s1", status=1, n=ts)],  # fresh
         [E(kind="Renew", creator="a01", provider="a01", owner="d1", signer="d1", datas=["D1"], dur=3600, timeout=10),
          E(kind="Migrate", creator="a01", provider="a01", datas=["D1"])],
